@@ -227,8 +227,12 @@ def r3_alaska(ctx):
               g, calls[0], "Alaska.get_profile builds the same STV from get_profile(1) (sibling agreement)", str(gb),
               f"get_profile binds {gb}; the run binds {b}; the profile must be self.get_profile(1)")
     gst = astx.stmt_of(calls[0], gpm)
-    gv = gst.targets[0].id
-    qs = [c for c in astx.calls_in(g.node, "get_profile") if astx.is_name(c.func.value, gv)]
+    if isinstance(gst, ast.Assign) and len(gst.targets) == 1 and isinstance(gst.targets[0], ast.Name):
+        gv = gst.targets[0].id
+        qs = [c for c in astx.calls_in(g.node, "get_profile") if astx.is_name(c.func.value, gv)]
+    else:
+        # the STV is asked at once: STV(...).get_profile(rn - 1)
+        qs = [c for c in astx.calls_in(g.node, "get_profile") if isinstance(c.func, ast.Attribute) and c.func.value is calls[0]]
     Ng = Normalizer(g.node, inline=False, int_atoms=lambda a: True)
     good = len(qs) == 1 and qs[0].args and Ng.rat(qs[0].args[0]).equals(spec_rat("round_number - 1"))
     ctx.check(bool(good), g, qs[0] if qs else g.node, "Alaska.get_profile asks the STV for round rn - 1 (offset agrees with the +1 shift)",
